@@ -163,6 +163,16 @@ func scenarioHostile() int {
 				m, _ := sip.Read(seeds[svc][1])
 				wire.WithBody(m, []byte(strings.Repeat("B", 66000+g.R.Intn(3000))))
 				in.raw, in.mut, in.proto = m.Bytes(), "oversize-for-udp-hop", "tcp"
+			} else if g.R.Intn(150) == 0 {
+				// a well-formed request whose To host is tens of thousands of dots (and one that
+				// nearly matches the pattern with several wildcards): looked up in the route table
+				m := wire.StdRequest(fmt.Sprintf("dots%d", sent+k), "OPTIONS", "sip:x@foreign.example", in.proto, w.UAs[0].IP, wire.UDPPort)
+				host := strings.Repeat(".", 20000+g.R.Intn(20000))
+				if g.R.Intn(2) == 0 {
+					host = strings.Repeat("a.", 15000) + "multi.verif.tesx"
+				}
+				wire.SetHeader(m, "To", "<sip:bob@"+host+">")
+				in.raw, in.mut = m.Bytes(), "to-host-of-dots"
 			} else {
 				in.raw, in.mut = g.Mutate(seed)
 			}
